@@ -28,10 +28,10 @@ VARIABLES next,             \* index of the next batch to be offered
           queue, worker, aggr, held,
           flusher,          \* [pc |-> "idle" | "handing" | "waiting", at |-> next shard, done |-> set of shards]
           ticks, flushNo, mergeGate, needReset,
-          inflight, done, known, seen, owner, bad      \* the monitor
+          inflight, done, known, seen, owner, bad, cnt, nrep      \* the monitor
 Prop == INSTANCE ConservationProp
 ivars == <<next, parser, queue, worker, aggr, held, flusher, ticks, flushNo, mergeGate, needReset>>
-vars == <<ivars, inflight, done, known, seen, owner, bad>>
+vars == <<ivars, inflight, done, known, seen, owner, bad, cnt, nrep>>
 
 Shards == 0..(W - 1)
 SplitOf(b) == [s \in Shards |-> {i \in b : BucketOf[KeyOf[i]] = s}]
@@ -46,7 +46,7 @@ Init == /\ next = 1 /\ parser = [p \in 1..NP |-> [st |-> "idle", splits |-> <<>>
         /\ mergeGate = [s \in Shards |-> FALSE] /\ needReset = {}
         /\ Prop!PInit
 
-MonUnch == UNCHANGED <<inflight, done, known, seen, owner, bad>>
+MonUnch == UNCHANGED <<inflight, done, known, seen, owner, bad, cnt, nrep>>
 
 \* client send and parser receive on the (rendezvous) input channel, then parsing and Split
 ParserTake(p) ==
